@@ -32,6 +32,10 @@ var genPokes = false
 // genSelfDestruct enables SELFDESTRUCT frame endings (used by the C05 program family).
 var genSelfDestruct = false
 
+// genCreates adds CREATE steps (a small contract with one storage slot, funded with a few wei): the
+// creator's nonce and balance then change inside frames that may fail.
+var genCreates = false
+
 // genPcQueries, when non-empty, sprinkles read-only calls of stateful precompiles over the
 // frames (each such call makes the StateDB flush into the store in the middle of the
 // transaction). Gas then differs from a chain without those precompiles, so in this mode no
@@ -96,6 +100,9 @@ func genProg(rng *rand.Rand, depth int, eoas []common.Address, fresh func() comm
 	nsteps := 1 + rng.Intn(4)
 	slot := uint64(0)
 	for i := 0; i < nsteps; i++ {
+		if genCreates && rng.Intn(5) == 0 {
+			p.plan = append(p.plan, pstep{kind: "create", val: big.NewInt(int64(rng.Intn(20)))})
+		}
 		if len(genPcQueries) > 0 && rng.Intn(3) == 0 {
 			q := genPcQueries[rng.Intn(len(genPcQueries))]
 			p.plan = append(p.plan, pstep{kind: "pcquery", to: q.to, data: q.data})
@@ -192,6 +199,8 @@ func deployProg(n *vn.Node, from vn.Account, p *pnode) ([]common.Address, error)
 			p.steps = append(p.steps, evmasm.SStore{Slot: st.slot, Val: 0})
 		case "log":
 			p.steps = append(p.steps, evmasm.Log{Topic: 42})
+		case "create":
+			p.steps = append(p.steps, evmasm.Create{Init: evmasm.InitCode([]evmasm.Step{evmasm.SStore{Slot: 1, Val: 1}}, []evmasm.Step{evmasm.Stop{}}), Value: st.val, Fail: evmasm.Ignore})
 		case "pcquery":
 			p.steps = append(p.steps, evmasm.CallStep{Kind: evmasm.StaticCall, To: st.to, Data: st.data, Fail: evmasm.Ignore})
 		case "send-eoa", "send-fresh":
